@@ -1271,6 +1271,9 @@ func c20URLs(t *testing.T, o *vOut, rng *mrand.Rand) {
 			bytes = strings.Join(parts, ".")
 		}
 		o.Line("internal %s %s => %v", hexRunes(h), bytes, SubjectIsInternal(subj))
+		// the same case for the definition the function translator printed from the source: it gets
+		// hostOnly's raw answer and normalises it itself
+		o.Line("internalfn %s %s => %v", hexRunes(vHostOnlyRef(subj)), bytes, SubjectIsInternal(subj))
 	}
 	o.Stat("internal_hosts", len(hs))
 }
